@@ -200,6 +200,13 @@ def _site(exc):
             last = tb.tb_frame.f_code.co_name
         tb = tb.tb_next
     if innermost is not None and innermost.startswith("/verif/"):
+        # exceptions raised by the library *models* (futures, containers, strings) are the modelled
+        # behaviour of the real library; anything else raised under /verif is a harness/engine problem
+        import asyncio
+        modelled = (asyncio.InvalidStateError, asyncio.CancelledError, IndexError, KeyError, ValueError,
+                    StopIteration, UnicodeError, ZeroDivisionError, OverflowError)
+        if "/verif/pyvc/" in innermost and isinstance(exc, modelled) and "/standin/" not in innermost:
+            return last or "?"
         return "?"
     return last or "?"
 
